@@ -137,6 +137,24 @@ func (in *Interp) fromNative(rv reflect.Value, st types.Type) Value {
 			return Iface{}
 		}
 		if e, ok := rv.Interface().(error); ok {
+			if ne, ok := e.(*strconv.NumError); ok {
+				// interpreted callers (strconv.ParseInt around a natively run ParseUint) inspect the concrete type and
+				// compare Err with the package's sentinel values: rebuild the *NumError on the engine heap
+				if pkg := in.eng.prog.ImportedPackage("strconv"); pkg != nil {
+					var sentinel Value
+					switch ne.Err {
+					case strconv.ErrRange:
+						sentinel = Pointer{obj: in.global(pkg.Var("ErrRange"))}.load()
+					case strconv.ErrSyntax:
+						sentinel = Pointer{obj: in.global(pkg.Var("ErrSyntax"))}.load()
+					default:
+						sentinel = in.mkErrVal(ne.Err.Error(), nil)
+					}
+					nt := pkg.Type("NumError").Type()
+					o := in.newObject(nt, &Struct{f: []Value{ne.Func, ne.Num, sentinel}})
+					return Iface{t: types.NewPointer(nt), v: Pointer{obj: o}}
+				}
+			}
 			return in.mkErrVal(e.Error(), nil)
 		}
 	}
